@@ -10,24 +10,39 @@ Definition ty (name : string) : N :=
   match find (fun e => String.eqb (fst e) name) txtypes with Some e => snd e | None => 999%N end.
 
 (* Unique resources named by the property, the slot that must index them and
-   the transaction types that claim them (hand-written from the property). *)
-Definition required : list requirement := [
-  ("outpoint", name_inputs, map snd txtypes);
-  ("producer owner key", "DPoSOwnerPublicKey", [ty "RegisterProducer"; ty "UpdateProducer"; ty "CancelProducer"; ty "RegisterCR"]);
-  ("producer node key", "DPoSNodePublicKey", [ty "RegisterProducer"; ty "UpdateProducer"; ty "ActivateProducer"; ty "RegisterCR"; ty "CRCouncilMemberClaimNode"]);
-  ("producer owner/node key cross use", "DPoSOwnerNodePublicKeys", [ty "RegisterProducer"; ty "UpdateProducer"]);
-  ("producer nickname", "DPoSNickname", [ty "RegisterProducer"; ty "UpdateProducer"]);
-  ("CR CID", "CrDID", [ty "RegisterCR"; ty "UpdateCR"; ty "UnregisterCR"]);
-  ("CR nickname", "CrNickname", [ty "RegisterCR"; ty "UpdateCR"]);
-  ("deposit program code", "ProgramCode", [ty "ReturnDepositCoin"; ty "ReturnCRDepositCoin"]);
-  ("proposal draft hash", "CRCProposalDraftHash", [ty "CRCProposal"]);
-  ("proposal hash (withdraw)", "CRCProposalHash", [ty "CRCProposalWithdraw"]);
-  ("proposal hash (tracking)", "CRCProposalTrackingHash", [ty "CRCProposalTracking"]);
-  ("proposal review key", "CRCProposalReviewKey", [ty "CRCProposalReview"]);
-  ("CRC appropriation", "CRCAppropriationKey", [ty "CRCAppropriation"]);
-  ("council member claimed node key", "CRCouncilMemberNodePublicKey", [ty "CRCouncilMemberClaimNode"]);
-  ("council member DID", "CRCouncilMemberDID", [ty "CRCouncilMemberClaimNode"]);
-  ("side-chain tx hash", "SidechainTxHashes", [ty "WithdrawFromSideChain"]);
-  ("side-chain return-deposit tx hash", "SidechainReturnDepositTxHashes", [ty "ReturnSideChainDepositCoin"]);
-  ("special tx hash", "SpecialTxHash", [ty "IllegalProposalEvidence"; ty "IllegalVoteEvidence"; ty "IllegalBlockEvidence"; ty "IllegalSidechainEvidence"; ty "InactiveArbitrators"; ty "NextTurnDPOSInfo"])
+   the (transaction type, payload versions) that claim them (hand-written from
+   the property).  The slot table only knows tx types; the payload versions
+   are what the harness sweep must exercise for each row (a key function that
+   yields no key for one version is reported there): see harness/cmd/c34
+   [required] / sweep.go, which mirrors this table. *)
+Definition requirement_v := (string * string * list (N * list N))%type.
+
+Definition v0 (t : N) : N * list N := (t, [0%N]).
+
+Definition required_v : list requirement_v := [
+  ("outpoint", name_inputs, map v0 (map snd txtypes));
+  ("producer owner key", "DPoSOwnerPublicKey", [v0 (ty "RegisterProducer"); v0 (ty "UpdateProducer"); v0 (ty "CancelProducer"); (ty "RegisterCR", [0; 1; 2]%N)]);
+  ("producer node key", "DPoSNodePublicKey", [v0 (ty "RegisterProducer"); v0 (ty "UpdateProducer"); v0 (ty "ActivateProducer"); (ty "RegisterCR", [0; 1; 2]%N); v0 (ty "CRCouncilMemberClaimNode")]);
+  ("producer owner/node key cross use", "DPoSOwnerNodePublicKeys", [v0 (ty "RegisterProducer"); v0 (ty "UpdateProducer")]);
+  ("producer nickname", "DPoSNickname", [v0 (ty "RegisterProducer"); v0 (ty "UpdateProducer")]);
+  ("CR CID", "CrDID", [(ty "RegisterCR", [0; 1; 2]%N); (ty "UpdateCR", [0; 1]%N); v0 (ty "UnregisterCR")]);
+  ("CR nickname", "CrNickname", [(ty "RegisterCR", [0; 1; 2]%N); (ty "UpdateCR", [0; 1]%N)]);
+  ("deposit program code", "ProgramCode", [v0 (ty "ReturnDepositCoin"); v0 (ty "ReturnCRDepositCoin")]);
+  ("proposal draft hash", "CRCProposalDraftHash", [v0 (ty "CRCProposal")]);
+  ("proposal hash (withdraw)", "CRCProposalHash", [v0 (ty "CRCProposalWithdraw")]);
+  ("proposal hash (tracking)", "CRCProposalTrackingHash", [v0 (ty "CRCProposalTracking")]);
+  ("proposal review key", "CRCProposalReviewKey", [v0 (ty "CRCProposalReview")]);
+  ("CRC appropriation", "CRCAppropriationKey", [v0 (ty "CRCAppropriation")]);
+  ("council member claimed node key", "CRCouncilMemberNodePublicKey", [v0 (ty "CRCouncilMemberClaimNode")]);
+  ("council member DID", "CRCouncilMemberDID", [v0 (ty "CRCouncilMemberClaimNode")]);
+  ("side-chain tx hash", "SidechainTxHashes", [(ty "WithdrawFromSideChain", [0; 1; 2]%N)]);
+  ("side-chain return-deposit tx hash", "SidechainReturnDepositTxHashes", [v0 (ty "ReturnSideChainDepositCoin")]);
+  ("special tx hash", "SpecialTxHash", [v0 (ty "IllegalProposalEvidence"); v0 (ty "IllegalVoteEvidence"); v0 (ty "IllegalBlockEvidence"); v0 (ty "IllegalSidechainEvidence"); v0 (ty "InactiveArbitrators"); v0 (ty "NextTurnDPOSInfo")]);
+  ("stake address", "ExchangeVotes", [v0 (ty "ExchangeVotes"); v0 (ty "Voting"); (ty "ReturnVotes", [0; 1]%N); (ty "CreateNFT", [0; 1]%N)]);
+  ("DPoS v2 reward claim", "DposV2ClaimReward", [(ty "DposV2ClaimReward", [0; 1]%N)]);
+  ("NFT id", "createnft", [(ty "CreateNFT", [0; 1]%N)])
 ].
+
+(* the part of the specification the slot table can answer: resource, slot, tx types *)
+Definition required : list requirement :=
+  map (fun r => (fst (fst r), snd (fst r), map fst (snd r))) required_v.
